@@ -14,7 +14,7 @@ import (
 )
 
 // C20, forced orderings: one producer call (Enqueue) against one consumer call (Dequeue / DequeueAll / Requeue) on a queue
-// that holds 0..2 chunks, with the goroutine that reaches yield point b held back (at most 3 ms) until the other one has
+// that holds 0..2 chunks, with the goroutine that reaches yield point b held back (at most 12 ms, counted from the moment both goroutines are running) until the other one has
 // passed point a or has returned from its call (P_ret / C_ret).  The yield points are the statement labels of Queue.tla
 // (hooks in util/queue.go, build tag verif).  Every run ends with a drain by the consumer and is recorded as a history for
 // QueueTrace.tla, which decides linearizability.  Orderings the locks forbid simply time out.
@@ -51,7 +51,7 @@ func (g *qgate) yield(p string) {
 		return
 	}
 
-	deadline := time.Now().Add(3 * time.Millisecond)
+	deadline := time.Now().Add(12 * time.Millisecond)
 
 	for time.Now().Before(deadline) {
 		g.mu.Lock()
@@ -163,13 +163,27 @@ func c20forced(args []string) error {
 
 					wg.Add(2)
 
+					// both goroutines are running before either makes its call (on a busy machine the second one may be scheduled
+					// later than the gate is willing to wait)
+					var started int32
+
+					ready := func() {
+						atomic.AddInt32(&started, 1)
+
+						for t0 := time.Now(); atomic.LoadInt32(&started) < 2 && time.Since(t0) < 200*time.Millisecond; {
+							time.Sleep(10 * time.Microsecond)
+						}
+					}
+
 					go func() {
 						defer wg.Done()
+						ready()
 						call("p", qop{Op: "enq", Arg: 7})
 						g.mark("P_ret")
 					}()
 					go func() {
 						defer wg.Done()
+						ready()
 						call("c", qop{Op: cons, Arg: 9})
 						g.mark("C_ret")
 					}()
